@@ -8,6 +8,9 @@
    user attributes parsed back from a name).  The compression format of a name is decided as in
    files/utils.py (Model/C12_compress.v: fmt_of_name, the advertised formats gz bz2 zip xz).
 
+   post_reader (a field of the fileset record) is a function of the ENTRY of the file that is read and of the data:
+   FileSet.read hands the handler the decompressed temporary file but post_reader the FileInfo it was called with.
+
    External components are Section variables:
      enc h w x / dec h r b   -- the handler number h writing data x with write_args w / reading with read_args r
      pack f b / unpack f b   -- the codec of compression format f
@@ -49,6 +52,10 @@ Definition fill_of (a : attrs) : list (key * str) := map (fun kv => (KU (fst kv)
 (* a file found by find(): path, start, end, user attributes *)
 Record entry := En { e_path : str; e_s : Z; e_e : Z; e_attr : attrs }.
 
+(* FileInfo(path): what read("some/path") builds from a string -- no times, no attributes (times are None in the
+   code; an entry carries 0 there) *)
+Definition bare (p : str) : entry := En p 0 0 [].
+
 (* selection arguments of find()/map(): period [start, stop), white list, black list, or explicit files *)
 Record sel := Sel { s_start : Z; s_stop : Z; s_white : list (str * list str);
                     s_black : list (str * list str); s_files : option (list str) }.
@@ -82,9 +89,11 @@ Definition dremove (p : str) (d : disk) : disk := filter (fun kv => negb (str_eq
 Definition dstore (p : str) (b : Bytes) (d : disk) : disk := (p, b) :: dremove p d.
 Definition paths (d : disk) : list str := map fst d.
 
-(* a FileSet: template, time_coverage, handler, read_args, write_args, post_reader, compress, decompress *)
+(* a FileSet: template, time_coverage, handler, read_args, write_args, post_reader, compress, decompress.
+   post_reader is `callable(file_info, file_data)`: a function of the FileInfo of the file that is read (path, times,
+   attributes) AND of the data. *)
 Record fset := FSet { tpl : list tok; cov : option Z; hid : Z; rargs : Z; wargs : Z;
-                      post : Data -> Data; zc : bool; zd : bool }.
+                      post : entry -> Data -> Data; zc : bool; zd : bool }.
 
 Definition finfo (F : fset) (p : str) : result (Z * Z * attrs) :=
   info (Cfg ViaFilename (cov F) None None []) (tpl F) p.
@@ -98,17 +107,28 @@ Definition encode (F : fset) (x : Data) (p : str) : option Bytes :=
 Definition write_file (F : fset) (x : Data) (p : str) (d : disk) : res disk :=
   match encode F x p with Some b => Good (dstore p b d) | None => Bad EHandler end.
 
-(* FileSet.read: decompress when the name says so, handler.read with read_args, post_reader *)
-Definition decode (F : fset) (p : str) (b : Bytes) : res Data :=
-  match (match (if zd F then zfmt p else None) with Some f => unpack f b | None => Some b end) with
+(* FileSet.read(file_info): decompress when the name says so, handler.read with read_args, post_reader.
+   `en` is the FileInfo the caller hands in (an entry reported by find(), or `bare p` for a string).  The HANDLER is
+   given the decompressed bytes (in the code: a copy of the FileInfo whose path is the temporary decompressed file);
+   the POST_READER is given en ITSELF -- the file of the fileset, the same path, times and attributes that find()
+   reports, whether the file is compressed or not (read_applies_post_reader_to_own_entry). *)
+Definition decode (F : fset) (en : entry) (b : Bytes) : res Data :=
+  match (match (if zd F then zfmt (e_path en) else None) with Some f => unpack f b | None => Some b end) with
   | None => Bad ECodec
   | Some raw => match dec (hid F) (rargs F) raw with
                 | None => Bad EHandler
-                | Some x => Good (post F x)
+                | Some x => Good (post F en x)
                 end
   end.
-Definition read_file (F : fset) (p : str) (d : disk) : res Data :=
-  match dlook p d with None => Bad ENoFile | Some b => decode F p b end.
+Definition read_file (F : fset) (en : entry) (d : disk) : res Data :=
+  match dlook (e_path en) d with None => Bad ENoFile | Some b => decode F en b end.
+(* what the HANDLER returns for the content b of a file named p: decompression decided by the name, read_args --
+   before post_reader (decode = handler_read, then post_reader on the caller's FileInfo: decode_factor) *)
+Definition handler_read (F : fset) (p : str) (b : Bytes) : res Data :=
+  match (match (if zd F then zfmt p else None) with Some f => unpack f b | None => Some b end) with
+  | None => Bad ECodec
+  | Some raw => match dec (hid F) (rargs F) raw with None => Bad EHandler | Some x => Good x end
+  end.
 
 (* ------------------------------------------------------------------ selection (brute force) *)
 
@@ -148,8 +168,8 @@ Definition target (G : fset) (en : entry) : result str :=
   render (tpl G) (e_s en) (e_e en) (fill_of (e_attr en)).
 
 (* convert: read through the source fileset, apply the user's function, encode for the destination *)
-Definition recode (F G : fset) (f : Data -> Data) (p q : str) (b : Bytes) : res Bytes :=
-  rbind (decode F p b) (fun x => match encode G (f x) q with Some c => Good c | None => Bad EHandler end).
+Definition recode (F G : fset) (f : Data -> Data) (en : entry) (q : str) (b : Bytes) : res Bytes :=
+  rbind (decode F en b) (fun x => match encode G (f x) q with Some c => Good c | None => Bad EHandler end).
 
 (* _move_single_file *)
 Definition move1 (F G : fset) (copy : bool) (conv : option (Data -> Data)) (d : disk) (en : entry) : res disk :=
@@ -161,7 +181,7 @@ Definition move1 (F G : fset) (copy : bool) (conv : option (Data -> Data)) (d : 
       | None => Bad ENoFile
       | Some b =>
           match conv with
-          | Some f => rbind (recode F G f p q b) (fun c =>
+          | Some f => rbind (recode F G f en q b) (fun c =>
                         let d' := dstore q c d in Good (if copy then d' else dremove p d'))
           | None => if str_eqb p q then (if copy then Bad ESame else Good d)
                     else let d' := dstore q b d in Good (if copy then d' else dremove p d')
@@ -183,7 +203,7 @@ Definition delete (F : fset) (dry : bool) (sl : sel) (d : disk) : res disk :=
 Inductive op :=
 | OWrite (F : fset) (s e : Z) (fill : attrs) (x : Data)      (* F[s:e, fill] = x *)
 | OWriteAt (F : fset) (p : str) (x : Data)                   (* F.write(x, p) *)
-| ORead (F : fset) (p : str)                                 (* F.read(p) *)
+| ORead (F : fset) (en : entry)                              (* F.read(file_info); F.read("path") = ORead F (bare path) *)
 | OGet (F : fset) (t : Z)                                    (* F[t] through the exact-name short cut *)
 | OCollect (F : fset) (sl : sel)                             (* F.collect(...), F[s:e] *)
 | OFind (F : fset) (sl : sel)
@@ -205,18 +225,19 @@ Definition step (o : op) (d : disk) : res (disk * obs) :=
       | Ok p => rbind (write_file F x p d) (fun d' => Good (d', VNone))
       end
   | OWriteAt F p x => rbind (write_file F x p d) (fun d' => Good (d', VNone))
-  | ORead F p => rbind (read_file F p d) (fun x => Good (d, VData x))
+  | ORead F en => rbind (read_file F en d) (fun x => Good (d, VData x))
   | OGet F t =>
+      (* find_closest: the file with exactly this name exists -> get_info(name) -> read(that FileInfo) *)
       match render (tpl F) t t [] with
-      | Ok p => match dlook p d with
-                | Some _ => rbind (read_file F p d) (fun x => Good (d, VData x))
-                | None => Good (d, VUnspecified)
+      | Ok p => match dlook p d, entry_of F p with
+                | Some _, en :: _ => rbind (read_file F en d) (fun x => Good (d, VData x))
+                | _, _ => Good (d, VUnspecified)
                 end
       | Error _ => Good (d, VUnspecified)
       end
   | OCollect F sl =>
       rbind (find F sl d) (fun es =>
-      rbind (mapM (fun en => rbind (read_file F (e_path en) d) (fun x => Good (e_path en, x))) es)
+      rbind (mapM (fun en => rbind (read_file F en d) (fun x => Good (e_path en, x))) es)
             (fun l => Good (d, VList l)))
   | OFind F sl => rbind (find F sl d) (fun es => Good (d, VFiles es))
   | OMove F G copy conv sl => rbind (move F G copy conv sl d) (fun d' => Good (d', VNone))
@@ -261,8 +282,8 @@ Definition op_hyp_g (o : op) (d : disk) : bool :=
    may be unable to store what it is handed (enc = None).  The worker of such a file raises after the file was read and
    before anything is written; _move_single_file removes the original only AFTER destination.write has returned, so
    a file that did not arrive at its target is still at its source. *)
-Definition recodep (F G : fset) (f : Data -> option Data) (p q : str) (b : Bytes) : res Bytes :=
-  rbind (decode F p b) (fun x =>
+Definition recodep (F G : fset) (f : Data -> option Data) (en : entry) (q : str) (b : Bytes) : res Bytes :=
+  rbind (decode F en b) (fun x =>
     match f x with
     | None => Bad EConvert
     | Some y => match encode G y q with Some c => Good c | None => Bad EHandler end
@@ -278,7 +299,7 @@ Definition move1p (F G : fset) (copy : bool) (conv : option (Data -> option Data
       | None => Bad ENoFile
       | Some b =>
           match conv with
-          | Some f => rbind (recodep F G f p q b) (fun c =>
+          | Some f => rbind (recodep F G f en q b) (fun c =>
                         let d' := dstore q c d in Good (if copy then d' else dremove p d'))
           | None => if str_eqb p q then (if copy then Bad ESame else Good d)
                     else let d' := dstore q b d in Good (if copy then d' else dremove p d')
@@ -305,7 +326,7 @@ Definition movep (F G : fset) (copy : bool) (conv : option (Data -> option Data)
 (* the selected files whose conversion fails on the disk d *)
 Definition failsb (F G : fset) (conv : option (Data -> option Data)) (d : disk) (en : entry) : bool :=
   match target G en, dlook (e_path en) d, conv with
-  | Ok q, Some b, Some f => match recodep F G f (e_path en) q b with Good _ => false | Bad _ => true end
+  | Ok q, Some b, Some f => match recodep F G f en q b with Good _ => false | Bad _ => true end
   | _, _, _ => false
   end.
 (* the selected files that are present under their target name on the disk d' *)
@@ -367,14 +388,14 @@ Variable kcode : kwargs -> Z.
 
 (* a FileSet OBJECT: what __init__ stored; read_args and write_args are its default dictionaries *)
 Record fobj := FObj { o_tpl : list tok; o_cov : option Z; o_hid : Z; o_rd : kwargs; o_wd : kwargs;
-                      o_post : Data -> Data; o_zc : bool; o_zd : bool }.
+                      o_post : entry -> Data -> Data; o_zc : bool; o_zd : bool }.
 (* the fileset as ONE call with the read arguments cr and the write arguments cw sees it *)
 Definition view (O : fobj) (cr cw : kwargs) : fset :=
   FSet (o_tpl O) (o_cov O) (o_hid O) (kcode (kmerge (o_rd O) cr)) (kcode (kmerge (o_wd O) cw))
        (o_post O) (o_zc O) (o_zd O).
 
 Inductive ocall :=
-| CRead (a : kwargs) (p : str)                  (* O.read(p, **a) *)
+| CRead (a : kwargs) (en : entry)               (* O.read(file_info, **a) *)
 | CCollect (a : kwargs) (sl : sel)              (* O.collect(..., read_args=a) *)
 | CWrite (a : kwargs) (x : Data) (p : str)      (* O.write(x, p, **a) *)
 | CPlain (f : fset -> op).                      (* any operation of `op` on O with its defaults: O[s:e] = x, O.move(..), ... *)
@@ -382,7 +403,7 @@ Inductive ocall :=
 (* one call: the object as it is afterwards, and the outcome *)
 Definition call_step (O : fobj) (c : ocall) (d : disk) : fobj * res (disk * obs) :=
   (O, match c with
-      | CRead a p => step (ORead (view O a []) p) d
+      | CRead a en => step (ORead (view O a []) en) d
       | CCollect a sl => step (OCollect (view O a []) sl) d
       | CWrite a x p => step (OWriteAt (view O [] a) p x) d
       | CPlain f => step (f (view O [] [])) d
@@ -430,6 +451,21 @@ Definition t_unpack (f : str) (b : list Z) : option (list Z) :=
   match b with c :: b' => if c =? zcode f then Some b' else None | [] => None end.
 
 Definition t_fset := @fset Z.
+
+(* post_readers of the harness: one that only adds k to the payload, and one that LABELS the payload with the file it
+   is told it comes from: a checksum of the path (relative to the root of the tree), of the two times and of the
+   attributes of the FileInfo it is handed.  tools/harness/c11_run.py (PostLabel) computes the same number from the
+   FileInfo object that FileSet.read passes to post_reader. *)
+Definition hstr (s : str) : Z :=
+  fold_left (fun h c => (h * 31 + Z.of_N (N_of_ascii c)) mod 9973) s 7.
+Definition t_lab (en : entry) : Z :=
+  (hstr (e_path en) + (e_s en) mod 9973 + 7 * ((e_e en) mod 9973)
+   + fold_right (fun kv a => a + 3 * hstr (fst kv) + hstr (snd kv)) 0 (e_attr en)) mod 9973.
+Definition t_add (k : Z) : entry -> Z -> Z := fun _ x => x + k.
+Definition t_label (k : Z) : entry -> Z -> Z := fun en x => x + k + 1000 * t_lab en.
+(* the FileInfo get_info(p) builds for a file of the fileset (what find() reports); `bare p` when the name does not parse *)
+Definition t_info (F : t_fset) (p : str) : entry :=
+  match entry_of Z F p with en :: _ => en | [] => bare p end.
 Definition t_step := step Z (list Z) t_enc t_dec t_pack t_unpack.
 Definition op_hyp := op_hyp_g Z (list Z).
 
